@@ -165,11 +165,8 @@ Definition rd_object (l : str) : option (term * str) :=
   if starts_with 60 l || starts_with 95 l then rd_node l
   else if starts_with 34 l then rd_literal l
   else None.
-(* eat(r_wspaces): [ \t]+ ; eat(r_wspace): [ \t]* *)
-Definition eat_wspaces (l : str) : option str :=
-  match l with c :: _ => if is_ws c then Some (skip_ws l) else None | [] => None end.
-Definition eat_sep (nq : bool) (l : str) : option str :=
-  if nq then Some (skip_ws l) else eat_wspaces l.
+(* eat(r_wspace): [ \t]* between the terms, in both parsers (N-Triples since 4cbe7459) *)
+Definition eat_sep (nq : bool) (l : str) : option str := Some (skip_ws l).
 (* eat(r_tail) then [if self.line: raise] ; r_tail = [ \t]* \. [ \t]* (#.* )? *)
 Definition rd_tail (l : str) : bool :=
   match skip_ws l with
@@ -279,25 +276,31 @@ Definition rd_spec_ok (c : rcase) (o : robs) : bool :=
   end.
 
 (* finding triggers, computed on the text with the strict sub-parsers:
-   5 C05e  N-Triples only: no white space after the subject or after the predicate
    6 C05f  a blank node label with a character outside ASCII
    7 C05g  an IRIREF with a raw character that Python's \s matches (U+0085, U+00A0, U+2028, ...)
-   8 C05h  an IRIREF none of whose colons is written as such (all are UCHARs) *)
+   8 C05h  an IRIREF none of whose colons is written as such (all are UCHARs)
+   (5 C05e, white space required after subject and predicate in N-Triples, has been repaired: 4cbe7459) *)
 Definition raw_of (l r : str) : str := firstn (length l - length r) l.
+Definition wide_space (c : N) : bool := py_re_space c && negb (c <=? 32).
 Definition iri_raw_kf (raw : str) : N :=
   (* raw = '<' ... '>' ; the reader's [^:]+: needs some colon written as such *)
-  if existsb (fun c => py_re_space c && negb (c <=? 32)) raw then 7
-  else if memN 58 raw then 0 else 8.
-Definition node_raw_kf (raw : str) : N :=
-  if starts_with 60 raw then iri_raw_kf raw
-  else if existsb (fun c => 127 <? c) raw then 6 else 0.
-Definition object_raw_kf (raw : str) : N :=
-  if starts_with 34 raw then
-    match str_body (length raw) (tl raw) with
-    | Some (_, r1) => if starts_with 94 r1 then iri_raw_kf (tl (tl r1)) else 0
+  if existsb wide_space raw then 7 else if memN 58 raw then 0 else 8.
+(* l: the input where a subject / predicate / graph label / datatype IRIREF starts *)
+Definition node_kf (l : str) : N :=
+  if starts_with 60 l then
+    match p_iriref l with Some (_, r) => iri_raw_kf (raw_of l r) | None => 0 end
+  else
+    match p_bnode l with
+    | Some (_, r) => if existsb (fun c => 127 <? c) (raw_of l r) then 6 else 0
+    | None => 0
+    end.
+Definition object_kf (l : str) : N :=
+  if starts_with 34 l then
+    match str_body (S (length (tl l))) (tl l) with
+    | Some (_, r1) => if starts_with 94 r1 && starts_with 94 (tl r1) then node_kf (tl (tl r1)) else 0
     | None => 0
     end
-  else node_raw_kf raw.
+  else node_kf l.
 Definition line_kf (nq : bool) (l : str) : N :=
   let l0 := skip_ws l in
   match p_subject l0 with
@@ -306,15 +309,8 @@ Definition line_kf (nq : bool) (l : str) : N :=
     | Some (_, r2) =>
       match p_object (skip_ws r2) with
       | Some (_, r3) =>
-          first_nz [ (if negb nq && (negb (starts_with 9 r1 || starts_with 32 r1)
-                                     || negb (starts_with 9 r2 || starts_with 32 r2)) then 5 else 0);
-                     node_raw_kf (raw_of l0 r1);
-                     iri_raw_kf (raw_of (skip_ws r1) r2);
-                     object_raw_kf (raw_of (skip_ws r2) r3);
-                     (if nq then match p_subject (skip_ws r3) with
-                                 | Some (_, r4) => node_raw_kf (raw_of (skip_ws r3) r4)
-                                 | None => 0
-                                 end else 0) ]
+          first_nz [node_kf l0; node_kf (skip_ws r1); object_kf (skip_ws r2);
+                    if nq then node_kf (skip_ws r3) else 0]
       | None => 0
       end
     | None => 0
